@@ -241,7 +241,11 @@ impl Check for C10 {
         let pool = &POOLS[lang];
         let mut cfg = GenCfg::swarm(rng);
         cfg.w[11] = cfg.w[11].max(3) * 2; // ambiguity triggers matter here
-        let na = if rng.chance(1, 64) { rng.range(40, 200) } else { rng.range(0, 15) };
+        let na = match rng.below(128) {
+            0 => rng.range(400, 1200),
+            1 | 2 => rng.range(40, 200),
+            _ => rng.range(0, 15),
+        };
         let mut a = gen_text(rng, pool, &cfg, na);
         let nb = rng.range(0, 15);
         let mut b = gen_text(rng, pool, &cfg, nb);
@@ -333,7 +337,16 @@ impl Check for C10 {
         let drop_words = |s: &str| -> Vec<String> {
             let words: Vec<&str> = s.split(' ').collect();
             let mut v = vec![];
-            if words.len() > 1 {
+            if words.len() > 80 {
+                v.push(words[words.len() / 2..].join(" "));
+                v.push(words[..words.len() / 2].join(" "));
+                let q = words.len() / 8;
+                for k in 0..8 {
+                    let mut w = words.clone();
+                    w.drain(k * q..(k + 1) * q);
+                    v.push(w.join(" "));
+                }
+            } else if words.len() > 1 {
                 v.push(words[words.len() / 2..].join(" "));
                 v.push(words[..words.len() / 2].join(" "));
                 for i in 0..words.len() {
